@@ -55,7 +55,8 @@ PROP = {
     "id": "C13",
     "thm_module": "Tyme.Thm.C13",
     "thm_file": "Tyme/Thm/C13.lean",
-    "lean_targets": ["Tyme.Thm.C13"],
+    "lean_targets": ["Tyme.Thm.C13", "Tyme.Thm.C13b"],
+    "fact_files": [("Tyme/Thm/C13b.lean", "Tyme.Thm.C13b")],
     "audit_files": ["Tyme/Model/Containers.lean", "Tyme/Spec/Containers.lean", "Tyme/Lemmas/Containers.lean", "Tyme/Model/Jd.lean",
                     "Tyme/Model/Lunar.lean", "Tyme/Model/Term.lean", "Tyme/Model/SixtyCycle.lean", "Tyme/Model/Clock.lean",
                     "Tyme/Lemmas/ScmDays.lean", "Tyme/Lemmas/ScdHours.lean", "Tyme/Lemmas/ScmTotal.lean", "Tyme/Facts/C13Win.lean", "Tyme/Facts/C13Preds.lean"],
